@@ -11,8 +11,9 @@ import (
 type opTemplate struct {
 	Text  string
 	Needs []string
-	Sets  []string // new schema (nil: unchanged)
-	Adds  []string // columns appended
+	Sets  []string    // new schema (nil: unchanged)
+	Adds  []string    // columns appended
+	Sort  []SortFlags // direction / null placement of the sort terms as written (documented defaults applied by hand)
 }
 
 var OpTemplates = []opTemplate{
@@ -25,25 +26,25 @@ var OpTemplates = []opTemplate{
 	{Text: "extend a + b", Needs: []string{"a", "b"}, Adds: []string{"?"}},
 	{Text: "summarize n = count() by b", Needs: []string{"b"}, Sets: []string{"b", "n"}},
 	{Text: "summarize m = max(a)", Needs: []string{"a"}, Sets: []string{"m"}},
-	{Text: "sort by a", Needs: []string{"a"}},
-	{Text: "sort by a asc, b nulls first", Needs: []string{"a", "b"}},
-	{Text: "order by b desc nulls first", Needs: []string{"b"}},
+	{Text: "sort by a", Needs: []string{"a"}, Sort: []SortFlags{{false, false}}},
+	{Text: "sort by a asc, b nulls first", Needs: []string{"a", "b"}, Sort: []SortFlags{{true, true}, {false, true}}},
+	{Text: "order by b desc nulls first", Needs: []string{"b"}, Sort: []SortFlags{{false, true}}},
 	{Text: "take 1"},
 	{Text: "limit 2"},
 	{Text: "take 0"},
-	{Text: "top 1 by a", Needs: []string{"a"}},
-	{Text: "top 2 by b asc", Needs: []string{"b"}},
+	{Text: "top 1 by a", Needs: []string{"a"}, Sort: []SortFlags{{false, false}}},
+	{Text: "top 2 by b asc", Needs: []string{"b"}, Sort: []SortFlags{{true, true}}},
 	{Text: "count", Sets: []string{"?"}},
 	{Text: "as X"},
 	{Text: "render k"},
 	{Text: "render k with (p = 'v')"},
-	{Text: "sort by b asc", Needs: []string{"b"}},
+	{Text: "sort by b asc", Needs: []string{"b"}, Sort: []SortFlags{{true, true}}},
 	{Text: "where b > 0 or isnull(a)", Needs: []string{"a", "b"}},
 	{Text: "filter not(a > 1)", Needs: []string{"a"}},
 	{Text: "summarize n = countif(a > 0), m = max(a) by b", Needs: []string{"a", "b"}, Sets: []string{"b", "n", "m"}},
-	{Text: "sort by a asc nulls last", Needs: []string{"a"}},
-	{Text: "top 2 by b desc nulls first", Needs: []string{"b"}},
-	{Text: "top 1 by a asc nulls last", Needs: []string{"a"}},
+	{Text: "sort by a asc nulls last", Needs: []string{"a"}, Sort: []SortFlags{{true, false}}},
+	{Text: "top 2 by b desc nulls first", Needs: []string{"b"}, Sort: []SortFlags{{false, true}}},
+	{Text: "top 1 by a asc nulls last", Needs: []string{"a"}, Sort: []SortFlags{{true, false}}},
 }
 
 func hasAll(schema, needs []string) bool {
@@ -99,6 +100,11 @@ func CompareTables(got, want *Table) {
 
 // CheckPipeline compiles src and compares the SQL's result with the pipeline's on db.
 func CheckPipeline(src string, db DB) {
+	CheckPipelineFlags(src, db, nil)
+}
+
+// CheckPipelineFlags is CheckPipeline with the sort flags of operator i stated by flags[i] (nil: as parsed).
+func CheckPipelineFlags(src string, db DB, flags [][]SortFlags) {
 	stmts, perr := parser.Parse(src)
 	sql, err := pql.Compile(src)
 	verif.Assert(perr == nil && err == nil, "a well-formed pipeline does not compile")
@@ -115,6 +121,24 @@ func CheckPipeline(src string, db DB) {
 	for _, s := range stmts {
 		if t, ok := s.(*parser.TabularExpr); ok {
 			q = t
+		}
+	}
+	for i, f := range flags {
+		if f == nil || q == nil || i >= len(q.Operators) {
+			continue
+		}
+		var terms []*parser.SortTerm
+		switch op := q.Operators[i].(type) {
+		case *parser.SortOperator:
+			terms = op.Terms
+		case *parser.TopOperator:
+			terms = []*parser.SortTerm{op.Col}
+		}
+		verif.Assert(len(terms) == len(f), "a sort operator has a different number of terms than written")
+		for k := range terms {
+			if k < len(f) && terms[k] != nil {
+				SortOverride[terms[k]] = f[k]
+			}
 		}
 	}
 	want, ok1 := PipeEval(q, db)
@@ -137,6 +161,7 @@ func CheckPipeline(src string, db DB) {
 func H_C02(l, r int) {
 	schema := []string{"a", "b"}
 	src := "T"
+	var flags [][]SortFlags
 	for i := 0; i < l; i++ {
 		t := OpTemplates[verif.Concrete(verif.IntRange(0, len(OpTemplates)))]
 		verif.Assume(hasAll(schema, t.Needs))
@@ -145,8 +170,9 @@ func H_C02(l, r int) {
 		}
 		schema = append(append([]string{}, schema...), t.Adds...)
 		src += " | " + t.Text
+		flags = append(flags, t.Sort)
 	}
 	verif.Obs("program", src)
 	db := DB{"T": symbolicTable([]string{"a", "b"}, r)}
-	CheckPipeline(src, db)
+	CheckPipelineFlags(src, db, flags)
 }
